@@ -37,6 +37,9 @@ RoundTrip(e) ==
   /\ SameNetwork(e.net_in, e.back.net)
   \* reloaded sets have the same effect as wild-card context
   /\ ToSet(e.probe_reloaded) = ToSet(e.probe_mem)
+  \* the archive without results holds exactly the model and the formula list
+  /\ ToSet(e.initial.entries) = {"model.aeon", "formulae.txt"}
+  /\ e.initial.formulae = e.formulae /\ SameNetwork(e.net_in, e.initial.net)
 
 (* the same on a network too large for explicit sets: the harness logs BDD-level facts only *)
 RoundTripBig(e) ==
